@@ -1,6 +1,9 @@
 // Harness for C20: drives virtual.ByteRangeLockSet the way OpenedFile does
 // (Test then Set; unlock = Set(Unlocked)) and records results and the list
-// after every operation.
+// after every operation. Histories with "via":"nfs" drive the table through
+// nfsv4.OpenedFile/OpenedFilesPool instead (Lock, Unlock, TestLock,
+// UnlockAll with NFSv4 (offset, length) pairs), which also exercises
+// offsetLengthToStartEnd and byteRangeLockToLock4Denied.
 package main
 
 import (
@@ -9,6 +12,8 @@ import (
 	"math"
 
 	"github.com/buildbarn/bb-remote-execution/pkg/filesystem/virtual"
+	vnfs "github.com/buildbarn/bb-remote-execution/pkg/filesystem/virtual/nfsv4"
+	"github.com/buildbarn/go-xdr/pkg/protocols/nfsv4"
 
 	g "verif/harness/internal/gallina"
 	"verif/harness/internal/hcommon"
@@ -16,16 +21,22 @@ import (
 )
 
 type op struct {
-	K     string `json:"k"` // lock, unlock, test, rawset
+	// table histories: lock, unlock, test, rawset (S, E);
+	// nfs histories: nlock, nunlock, ntest (Off, Len), unlockall.
+	// An op of the other family is skipped.
+	K     string `json:"k"`
 	Owner uint64 `json:"o"`
 	Excl  bool   `json:"x,omitempty"`
 	Type  int    `json:"t,omitempty"` // rawset: 0 unlocked 1 excl 2 shared
-	S     uint64 `json:"s"`
-	E     uint64 `json:"e"`
+	S     uint64 `json:"s,omitempty"`
+	E     uint64 `json:"e,omitempty"`
+	Off   uint64 `json:"off,omitempty"`
+	Len   uint64 `json:"len,omitempty"`
 }
 
 type history struct {
-	Ops []op `json:"ops"`
+	Via string `json:"via,omitempty"` // "" = table, "nfs" = through OpenedFile
+	Ops []op   `json:"ops"`
 }
 
 type area struct{}
@@ -33,15 +44,48 @@ type area struct{}
 func (area) Requires() string { return "From VF Require Import Common.Verdict LockSet.Model LockSet.Corr." }
 func (area) Check() string    { return "check_case" }
 func (area) Rule() string {
-	return "histories of 15-60 lock/unlock/test requests (90%) and raw Set calls without Test (10% of histories) by <=4 owners over ranges with endpoints from {0..12, 2^64-2, 2^64-1}, start<end; non-trivial = at least one grant that split, truncated or merged an existing entry (delta != +1 on a lock, or any unlock with delta != 0) and at least one denial; distinct by hash of the full case term"
+	return "histories of 15-60 (thorough 30-180) requests by <=4 owners. 60% of histories: lock/unlock/test on ByteRangeLockSet over ranges with endpoints from {0..12, 2^64-2, 2^64-1}, start<end (never start>=end: callers cannot produce it); 10%: the same plus raw Set calls without Test; 30%: through OpenedFile.Lock/Unlock/UnlockAll and OpenedFilesPool.TestLock with (offset, length): offsets as above, lengths from {0, 1..6, 2^64-1-offset, 2^64-offset (overflow), 2^64-2, 2^64-1}; thorough tier takes endpoints near 2^64-1 twice as often; non-trivial = at least one grant that split, truncated or merged an existing entry (delta != +1 on a lock, or any unlock with delta != 0) and at least one denial; distinct by hash of the full case term"
 }
 
 var endpoints = []uint64{0, 1, 2, 3, 4, 5, 6, 7, 8, 9, 10, 11, 12, math.MaxUint64 - 1, math.MaxUint64}
 
-func genRange(r *rng.R) (uint64, uint64) {
+func genOffLen(r *rng.R, thorough bool) (uint64, uint64) {
+	var off uint64
+	pct := 15
+	if thorough {
+		pct = 30
+	}
+	if r.Chance(pct) {
+		off = endpoints[r.Intn(len(endpoints))]
+	} else {
+		off = uint64(r.Intn(13))
+	}
+	var l uint64
+	switch x := r.Intn(100); {
+	case x < 4:
+		l = 0
+	case x < 70:
+		l = uint64(1 + r.Intn(6))
+	case x < 78:
+		l = math.MaxUint64 - off // end = 2^64-1 exactly
+	case x < 83:
+		l = math.MaxUint64 - off + 1 // one too many (wraps to 0 for off = 0)
+	case x < 88:
+		l = math.MaxUint64 - 1
+	default:
+		l = math.MaxUint64 // to end of file
+	}
+	return off, l
+}
+
+func genRange(r *rng.R, thorough bool) (uint64, uint64) {
+	pct := 15
+	if thorough {
+		pct = 30
+	}
 	for {
 		var a, b uint64
-		if r.Chance(15) {
+		if r.Chance(pct) {
 			a, b = endpoints[r.Intn(len(endpoints))], endpoints[r.Intn(len(endpoints))]
 		} else {
 			a, b = uint64(r.Intn(13)), uint64(r.Intn(13))
@@ -63,8 +107,29 @@ func (area) Generate(r *rng.R, thorough bool, index int) json.RawMessage {
 	owners := 1 + r.Intn(4)
 	raw := index%10 == 9
 	var h history
+	if m := index % 10; m == 2 || m == 5 || m == 8 {
+		h.Via = "nfs"
+		for i := 0; i < n; i++ {
+			off, l := genOffLen(r, thorough)
+			o := op{Owner: uint64(r.Intn(owners)), Off: off, Len: l, Excl: r.Chance(40)}
+			switch x := r.Intn(100); {
+			case x < 50:
+				o.K = "nlock"
+			case x < 72:
+				o.K = "nunlock"
+			case x < 95:
+				o.K = "ntest"
+			default:
+				o.K = "unlockall"
+				o.Off, o.Len = 0, 0
+			}
+			h.Ops = append(h.Ops, o)
+		}
+		data, _ := json.Marshal(h)
+		return data
+	}
 	for i := 0; i < n; i++ {
-		s, e := genRange(r)
+		s, e := genRange(r, thorough)
 		o := op{Owner: uint64(r.Intn(owners)), S: s, E: e, Excl: r.Chance(40)}
 		switch x := r.Intn(100); {
 		case raw && x < 30:
@@ -104,6 +169,9 @@ func (area) Execute(raw json.RawMessage) (term string, info *hcommon.Info, err e
 		return "", nil, err
 	}
 	info = hcommon.NewInfo()
+	if h.Via == "nfs" {
+		return executeNFS(h, info)
+	}
 	var ls virtual.ByteRangeLockSet[uint64]
 	ls.Initialize()
 	var ops, outs, dumps []string
@@ -160,6 +228,10 @@ func (area) Execute(raw json.RawMessage) (term string, info *hcommon.Info, err e
 			t := virtual.ByteRangeLockType(o.Type)
 			ops = append(ops, g.App("ORawSet", g.N(o.Owner), tyName(t), g.N(o.S), g.N(o.E)))
 			set(virtual.ByteRangeLock[uint64]{Start: o.S, End: o.E, Owner: o.Owner, Type: t})
+		case "nlock", "nunlock", "ntest", "unlockall":
+			info.Events--
+			info.Ops[o.K]--
+			continue
 		default:
 			return "", nil, fmt.Errorf("unknown op %q", o.K)
 		}
@@ -168,6 +240,133 @@ func (area) Execute(raw json.RawMessage) (term string, info *hcommon.Info, err e
 		entries := ls.VerifEntries()
 		for _, l := range entries {
 			d = append(d, lockTerm(l))
+		}
+		if len(entries) > info.Extra["max_entries"] {
+			info.Extra["max_entries"] = len(entries)
+		}
+		dumps = append(dumps, g.List(d))
+	}
+	info.Nontrivial = reshaped && denied
+	return g.App("mkCase", g.List(ops), g.List(outs), g.List(dumps)), info, nil
+}
+
+// executeNFS runs a history against one opened file of an OpenedFilesPool.
+func executeNFS(h history, info *hcommon.Info) (string, *hcommon.Info, error) {
+	pool := vnfs.NewOpenedFilesPool(nil)
+	handle := nfsv4.NfsFh4{1, 2, 3}
+	of := pool.Open(handle, nil)
+	owners := map[uint64]*nfsv4.LockOwner4{}
+	index := map[*nfsv4.LockOwner4]uint64{}
+	ownerOf := func(i uint64) *nfsv4.LockOwner4 {
+		if p, ok := owners[i]; ok {
+			return p
+		}
+		p := &nfsv4.LockOwner4{Clientid: 7, Owner: []byte{byte(i)}}
+		owners[i] = p
+		index[p] = i
+		return p
+	}
+	deniedTerm := func(d nfsv4.Lock4denied) string {
+		// The owner is reported by value; owners are told apart by
+		// their one-byte opaque.
+		var ow uint64
+		if len(d.Owner.Owner) == 1 {
+			ow = uint64(d.Owner.Owner[0])
+		}
+		return g.App("DeniedNfs", g.N(d.Offset), g.N(d.Length), g.Bool(d.Locktype == nfsv4.WRITE_LT), g.N(ow))
+	}
+	var ops, outs, dumps []string
+	reshaped, denied := false, false
+	for _, o := range h.Ops {
+		lt := nfsv4.READ_LT
+		if o.Excl {
+			lt = nfsv4.WRITE_LT
+		}
+		var opTerm, out string
+		var execErr error
+		func() {
+			defer func() {
+				if r := recover(); r != nil {
+					out = "Panicked"
+					info.Outs["panic"]++
+				}
+			}()
+			granted := func(d int, isLock bool) {
+				out = g.App("Granted", g.Z(int64(d)))
+				info.Outs[fmt.Sprintf("nfs-granted%+d", d)]++
+				if (isLock && d != 1) || (!isLock && d != 0) {
+					reshaped = true
+				}
+			}
+			inval := func(st nfsv4.Nfsstat4) {
+				if st == nfsv4.NFS4ERR_INVAL {
+					out = "Inval"
+					info.Outs["nfs-inval"]++
+				} else {
+					execErr = fmt.Errorf("unexpected status %d", st)
+				}
+			}
+			switch o.K {
+			case "nlock":
+				opTerm = g.App("ONfsLock", g.N(o.Owner), g.Bool(o.Excl), g.N(o.Off), g.N(o.Len))
+				d, res := of.Lock(ownerOf(o.Owner), o.Off, o.Len, lt)
+				switch r := res.(type) {
+				case nil:
+					granted(d, true)
+				case *nfsv4.Lock4res_NFS4ERR_DENIED:
+					out = deniedTerm(r.Denied)
+					info.Outs["nfs-denied"]++
+					denied = true
+				case *nfsv4.Lock4res_default:
+					inval(r.Status)
+				default:
+					execErr = fmt.Errorf("unexpected Lock result %T", res)
+				}
+			case "nunlock":
+				opTerm = g.App("ONfsUnlock", g.N(o.Owner), g.N(o.Off), g.N(o.Len))
+				d, st := of.Unlock(ownerOf(o.Owner), o.Off, o.Len)
+				if st == nfsv4.NFS4_OK {
+					granted(d, false)
+				} else {
+					inval(st)
+				}
+			case "ntest":
+				opTerm = g.App("ONfsTest", g.N(o.Owner), g.Bool(o.Excl), g.N(o.Off), g.N(o.Len))
+				switch r := pool.TestLock(handle, ownerOf(o.Owner), o.Off, o.Len, lt).(type) {
+				case *nfsv4.Lockt4res_NFS4_OK:
+					out = "TestOk"
+					info.Outs["nfs-test-ok"]++
+				case *nfsv4.Lockt4res_NFS4ERR_DENIED:
+					out = deniedTerm(r.Denied)
+					info.Outs["nfs-test-denied"]++
+				case *nfsv4.Lockt4res_default:
+					inval(r.Status)
+				default:
+					execErr = fmt.Errorf("unexpected TestLock result %T", r)
+				}
+			case "unlockall":
+				opTerm = g.App("OUnlockAll", g.N(o.Owner))
+				granted(of.UnlockAll(ownerOf(o.Owner)), false)
+			}
+		}()
+		if execErr != nil {
+			return "", nil, execErr
+		}
+		if opTerm == "" {
+			switch o.K {
+			case "lock", "unlock", "test", "rawset":
+				continue
+			}
+			return "", nil, fmt.Errorf("unknown op %q", o.K)
+		}
+		info.Events++
+		info.Ops[o.K]++
+		ops = append(ops, opTerm)
+		outs = append(outs, out)
+		var d []string
+		entries := of.VerifLocks()
+		for _, l := range entries {
+			d = append(d, g.App("mkLock", g.N(l.Start), g.N(l.End), g.N(index[l.Owner]), tyName(l.Type)))
 		}
 		if len(entries) > info.Extra["max_entries"] {
 			info.Extra["max_entries"] = len(entries)
